@@ -74,6 +74,7 @@ type gen struct {
 	f Focus
 	// name the next option definition has to use (families of related names)
 	forceName string
+	roOnCmds  bool // this program sets require-order on commands only
 }
 
 func (g *gen) p(x float64) bool       { return g.r.Float64() < x }
@@ -297,6 +298,13 @@ func (g *gen) genProgram(c *Case) *progInfo {
 		script = append(script, DefOp{Op: "umode", H: 0, N: um})
 	}
 	ro := g.f.ForceRO
+	if ro == 1 && g.p(0.25) {
+		// require-order only on (some) commands: the levels above them parse without it
+		ro = 0
+		g.roOnCmds = true
+	} else {
+		g.roOnCmds = false
+	}
 	if ro < 0 {
 		ro = 0
 		if g.p(0.15) {
@@ -433,7 +441,7 @@ func (g *gen) genProgram(c *Case) *progInfo {
 						script = append(script, DefOp{Op: "umode", H: h, N: g.r.Intn(3)})
 					}
 				}
-				if g.p(0.1) {
+				if g.p(0.1) || (g.roOnCmds && g.p(0.5)) {
 					script = append(script, DefOp{Op: "ro", H: h})
 					n.ro = true
 				}
@@ -910,8 +918,11 @@ func (g *gen) genCase(id int) *Case {
 	if c.Reparse {
 		c.Dispatch, c.Help = false, false
 	}
-	if g.p(0.04) {
+	if g.p(0.04) || ((g.f.Prop == "C03" || g.f.Prop == "C08" || g.f.Prop == "C09" || g.f.Prop == "C20") && g.p(0.05)) {
 		c.BadWriter = 1 + g.r.Intn(2)
+	}
+	if c.Dispatch && g.p(0.06) {
+		c.DeadCtx = 1 + g.r.Intn(2)
 	}
 	pSet := 0.03
 	if g.f.Prop == "C06" || g.f.Prop == "C01" || g.f.Prop == "C02" || g.f.Prop == "C12" {
